@@ -265,3 +265,84 @@ Qed.
 
 Example group_slices_example : group_slices 2 8 6 = [(0, 4, 0, 3); (4, 8, 3, 6)].
 Proof. vm_compute. reflexivity. Qed.
+
+(* ---------- folding the width into the depth ---------- *)
+Lemma zsum_product (A B : nat) (f : nat -> Z) :
+  zsum (map f (seq 0 (A * B))) = zsum (map (fun a => zsum (map (fun b => f (a * B + b)%nat) (seq 0 B))) (seq 0 A)).
+Proof.
+  induction A as [|A IH]; [reflexivity|].
+  replace (S A * B)%nat with (A * B + B)%nat by lia. rewrite seq_app, map_app, zsum_app, IH.
+  replace (S A) with (A + 1)%nat by lia. rewrite (seq_app A 1), map_app, zsum_app. f_equal.
+  cbn [seq map zsum fold_right Nat.add]. rewrite Z.add_0_r.
+  rewrite <- (map_map (fun b => (A * B + b)%nat) f). f_equal.
+  clear. generalize (A * B)%nat as m. intros m.
+  assert (H : forall len start, map (fun b => (m + b)%nat) (seq start len) = seq (m + start) len).
+  { induction len as [|len IHl]; intros start; [reflexivity|]. cbn [seq map]. rewrite IHl.
+    replace (m + S start)%nat with (S (m + start)) by lia. reflexivity. }
+  rewrite H. replace (m + 0)%nat with m by lia. reflexivity.
+Qed.
+
+Lemma zsum_ext (f g : nat -> Z) l : (forall i, In i l -> f i = g i) -> zsum (map f l) = zsum (map g l).
+Proof. intros H. f_equal. apply map_ext_in. exact H. Qed.
+
+(* the folded operator computes the strided one: every fold factor n > 0, channel count c > 0, kernel, map, stride, offset *)
+Theorem folded_conv_lemma kq n c wp x s offq o :
+  (0 < n)%nat -> (0 < c)%nat ->
+  folded_conv kq n c wp x s offq o = strided_conv kq n c wp x s (offq * Z.of_nat n) o.
+Proof.
+  intros Hn Hc. unfold folded_conv, strided_conv, dsum.
+  rewrite (zsum_product kq n (fun k => zsum (map (fun ch => wp k ch * x (o * (Z.of_nat n * s) - offq * Z.of_nat n + Z.of_nat k) ch) (seq 0 c)))).
+  apply zsum_ext. intros q _.
+  rewrite (zsum_product n c (fun d => fold_w n c wp q d * fold_x n c x (o * s - offq + Z.of_nat q) d)).
+  apply zsum_ext. intros j Hj. apply in_seq in Hj. apply zsum_ext. intros ch Hch. apply in_seq in Hch.
+  unfold fold_w, fold_x.
+  assert (Hd : ((j * c + ch) / c = j)%nat) by (rewrite Nat.div_add_l by lia; rewrite (Nat.div_small ch c) by lia; lia).
+  assert (Hm : ((j * c + ch) mod c = ch)%nat) by (rewrite Nat.add_comm, Nat.mod_add by lia; apply Nat.mod_small; lia).
+  rewrite Hd, Hm. f_equal. f_equal. rewrite Nat2Z.inj_add, Nat2Z.inj_mul. ring.
+Qed.
+
+(* zeros around the kernel do not contribute: with l zeros in front, the padded kernel at offset off is the kernel at off - l *)
+Lemma pad_kernel_taps l kw K c w (x : Z -> nat -> Z) (base : Z) :
+  (l + kw <= K)%nat ->
+  dsum K c (fun k ch => pad_kernel l kw w k ch * x (base + Z.of_nat k) ch) =
+  dsum kw c (fun k ch => w k ch * x (base + Z.of_nat l + Z.of_nat k) ch).
+Proof.
+  intros HK. unfold dsum.
+  replace K with (l + (kw + (K - l - kw)))%nat by lia. rewrite !seq_app, !map_app, !zsum_app.
+  rewrite (zsum_map_zero _ (seq 0 l)), (zsum_map_zero _ (seq (0 + l + kw) (K - l - kw))).
+  - rewrite Z.add_0_l, Z.add_0_r. cbn [Nat.add].
+    assert (H : forall len start, map (fun i => zsum (map (fun j => pad_kernel l kw w i j * x (base + Z.of_nat i) j) (seq 0 c))) (seq (l + start) len)
+                = map (fun i => zsum (map (fun j => pad_kernel l kw w (l + i) j * x (base + Z.of_nat (l + i)) j) (seq 0 c))) (seq start len)).
+    { induction len as [|len IHl]; intros start; [reflexivity|]. cbn [seq map]. f_equal.
+      replace (S (l + start)) with (l + S start)%nat by lia. apply IHl. }
+    replace l with (l + 0)%nat at 1 by lia. rewrite H. apply zsum_ext. intros k Hk. apply in_seq in Hk.
+    apply zsum_ext. intros ch _. unfold pad_kernel.
+    destruct (Nat.leb_spec l (l + k)); [|lia]. destruct (Nat.ltb_spec (l + k) (l + kw)); [|lia]. cbn [andb].
+    replace (l + k - l)%nat with k by lia. rewrite Nat2Z.inj_add. f_equal. f_equal. ring.
+  - intros k Hk. apply in_seq in Hk. apply zsum_map_zero. intros ch _. unfold pad_kernel.
+    destruct (Nat.leb_spec l k); cbn [andb]; [|lia]. destruct (Nat.ltb_spec k (l + kw)); [lia|]. lia.
+  - intros k Hk. apply in_seq in Hk. apply zsum_map_zero. intros ch _. unfold pad_kernel.
+    destruct (Nat.leb_spec l k); cbn [andb]; [lia|]. lia.
+Qed.
+
+Theorem strided_fold_lemma kq n c l kw w x s offq o :
+  (0 < n)%nat -> (0 < c)%nat -> (l + kw <= kq * n)%nat ->
+  folded_conv kq n c (pad_kernel l kw w) x s offq o =
+  dsum kw c (fun k ch => w k ch * x (o * (Z.of_nat n * s) - offq * Z.of_nat n + Z.of_nat l + Z.of_nat k) ch).
+Proof.
+  intros Hn Hc HK. rewrite (folded_conv_lemma kq n c (pad_kernel l kw w) x s offq o Hn Hc).
+  unfold strided_conv. apply (pad_kernel_taps l kw (kq * n) c w x (o * (Z.of_nat n * s) - offq * Z.of_nat n) HK).
+Qed.
+
+Theorem fold_conditions_sound_lemma stride n s width kw l r pad_old pad_new :
+  fold_conditions stride n s width kw l r pad_old pad_new = true ->
+  0 < n /\ stride = n * s /\ width mod n = 0 /\ (kw + l + r) mod n = 0 /\ pad_new * n - l = pad_old.
+Proof.
+  unfold fold_conditions. intros H.
+  repeat (apply andb_true_iff in H; destruct H as [H ?]).
+  repeat match goal with Hx : (_ =? _) = true |- _ => apply Z.eqb_eq in Hx | Hx : (_ <? _) = true |- _ => apply Z.ltb_lt in Hx end.
+  repeat split; try assumption; lia.
+Qed.
+
+Example fold_conditions_example : fold_conditions 4 4 1 16 7 0 1 0 0 = true.    (* VALID, 7 taps padded to 8 *)
+Proof. vm_compute. reflexivity. Qed.
